@@ -102,6 +102,7 @@ func (h *Handler) findOrCreate(clientID []byte, mac net.HardwareAddr, name strin
 			String("from", lease.subnet.LAN.String()).String("to", subnet.LAN.String()).Write()
 	}
 
+	replaced := lease != nil && lease.State == StateAllocated // the previous binding of this client is dropped
 	lease = &Lease{}
 	lease.ClientID = packet.CopyBytes(clientID)
 	lease.State = StateFree
@@ -111,6 +112,9 @@ func (h *Handler) findOrCreate(clientID []byte, mac net.HardwareAddr, name strin
 	lease.subnet = subnet
 	lease.Name = name
 	h.table[string(lease.ClientID)] = lease
+	if replaced {
+		h.saveConfig(h.filename) // the dropped binding must not come back after a restart
+	}
 	if Logger.IsDebug() {
 		Logger.Msg("new lease allocated").Struct(lease).Write()
 	}
